@@ -88,4 +88,16 @@ Burn == LET fl == [BigFl EXCEPT !.free = FALSE]
 Tight(g) == LET fl == [BigFl EXCEPT !.free = FALSE]
             IN [svcs |-> Services(fl), reports |-> << <<D(X, 60000), D(SP, 40000)>>, <<D(M, 50000)>> >>, free |-> <<>>,
                 priv |-> [m |-> M, a |-> <<A1, A2>>, v |-> V, r |-> RG], g |-> g, stf |-> FALSE, flags |-> fl]
+\* A ejects B in the very round in which B itself accumulates (both are sent a transfer by X in round 1): the removal wins
+\* ((d u n) \ m), A is paid B's balance as of the START of the round (Delta1 of every service starts from the same e); bystanders
+\* keep the other workers busy.  Run repeatedly under several worker-pool sizes (C22 / X06).
+Race(a, b, nby) ==
+  LET fl == [BigFl EXCEPT !.free = FALSE, !.spin = FALSE]
+      by == [k \in 1..nby |-> [id |-> 200 + k, code |-> FALSE, prog |-> <<>>, bal |-> Bal, sol |-> <<>>, ejby |-> 0]]
+  IN [svcs |-> << Svc(X, Xf(a, 7, 171, 3000) \o Xf(b, 300, 172, 3000) \o FlattenSeq([k \in 1..nby |-> Xf(200 + k, k, 180 + k, 3000)])),
+                  Svc(a, Eject(b) \o Op("rec")),
+                  [id |-> b, code |-> FALSE, prog |-> <<>>, bal |-> 5000, sol |-> <<>>, ejby |-> a] >> \o by,
+      reports |-> << <<D(X, 200000)>> >>, free |-> <<>>, priv |-> [m |-> M, a |-> <<A1, A2>>, v |-> V, r |-> RG],
+      g |-> 200000, stf |-> FALSE, flags |-> fl, race |-> TRUE]
+Races == {Race(ab[1], ab[2], nby) : ab \in {<<70002, 70001>>, <<70001, 70002>>, <<7, 300>>, <<300, 7>>}, nby \in {0, 3, 12}}
 =============================================================================
